@@ -49,7 +49,7 @@ class Stats:
 
 
 # ------------------------------------------------------------------------------ helpers
-BUILD_CMDS = {"leaf", "doomed", "joinid", "apply", "join", "joinon", "chain", "mat", "transfer", "process",
+BUILD_CMDS = {"leaf", "doomed", "joinid", "apply", "join", "joinon", "joinp", "chain", "mat", "transfer", "process",
               "unwrap", "rawu", "rawchain", "rawjoin", "conform"}
 
 
@@ -1324,7 +1324,7 @@ def oracle_C20(cmds, impl, model, stats: Stats):
             if not really:
                 stats.note(cmds[k + 1], False, "not-actually-ill-formed:" + kind)
                 continue
-            stats.note(cmds[k + 1], True, "kind:" + kind, "opts:" + (proto.sx(ctx.cmds[k + 1][-1]) if ctx.cmds[k + 1][0] == "apply" else ctx.cmds[k + 1][0]))
+            stats.note(cmds[k + 1], True, "kind:" + kind, "opts:" + (proto.sx(ctx.cmds[k + 1][-1]) if ctx.cmds[k + 1][0] in ("apply", "joinp") else ctx.cmds[k + 1][0]))
             if il.startswith("ok "):
                 out.append(Violation("C20", f"ill-formed-request-accepted:{kind}", f"{cmds[k + 1]}: {il[:200]}"))
             elif il.startswith("err "):
